@@ -1,12 +1,23 @@
+\* thorough design instance: two elections (heights 3 and 6), the second one from an elected list
 SPECIFICATION Spec
 CONSTANTS
-  Cand = {"x", "y"}
+  Cand = {"x", "y", "w"}
   CandOrder <- OrderXY
   Other = {"z"}
   MaxScore = 500
-  InitScore <- InitXY
-  MaxH = 4
-  MaxEv = 2
+  InitScore <- InitXYW
+  MaxH = 6
+  EvBound <- EvDesignBig
+  VotePeriod = 3
+  Pledge <- PledgeXYW
+  InitDeposit = 1
+  Seeds = {"s1", "s2", "s3"}
+  PermOf <- Perm3
+  RepOrder <- Rep4
+  SeedFromSeen = FALSE
+  Nume = 2
+  Deno = 3
+  UpperLimit = 12
 VIEW View
-INVARIANTS TypeOK ScoreInRange ListMirrorsContract ProdBounded
+INVARIANTS TypeOK ReplicasAgree NextValidatorsAgree ScoreInRange ListMirrorsContract ProdBounded ElectedFromContract
 CHECK_DEADLOCK FALSE
